@@ -1,7 +1,7 @@
 #!/bin/bash
 # Runs every registered check in the given tier (default quick), sequentially; prints one line per check.
 cd "$(dirname "$0")/.."
-TIER="${1:-quick}"
+TIER="${1:-quick}"; mkdir -p scratch
 for p in $(python3 -c "import json;print(' '.join(c['property_id'] for c in json.load(open('MANIFEST.json'))['checks']))"); do
   /usr/bin/time -f "%es" ./check "$p" --tier "$TIER" 2> "scratch/runall-$p.err" | tail -3
   echo "   exit=${PIPESTATUS[0]} $(tail -1 scratch/runall-$p.err)"
